@@ -159,7 +159,7 @@ def _check_header(real, new):
         raise AnchorLost('signature changed: ' + re.sub(r'\s+', ' ', real))
     ret = re.search(r'->\s*(.*?)\s*\{\s*$', real[b + 1:], re.S)
     if ret:
-        r = norm(ret.group(1))
+        r = re.sub(r'where.*$', '', norm(ret.group(1)))
         if r and r not in norm(new):
             raise AnchorLost('return type changed: ' + re.sub(r'\s+', ' ', real))
 
